@@ -253,3 +253,60 @@ pub fn gen_c13(out: &mut dyn Write, thorough: bool, seed: u64) {
         }
     }
 }
+
+/// C14: a predictor and its serialize -> deserialize round trip (all scorer variants), with trailing bytes
+pub fn gen_c14(out: &mut dyn Write, thorough: bool, seed: u64) {
+    use crate::model::{gen_tag_models, gen_text_tags};
+    use crate::pred::build_pred;
+    use crate::util::hex;
+    let mut r = Rng::new(seed ^ 0xC14);
+    // windows 1..3 use the type-score cache (without tags), 4+ the automaton; weight vectors of 8 vs 9 entries
+    let opts = GenOpts { windows: &[1, 2, 3, 4, 5, 8, 9], max_ngrams: 6, max_words: 4, max_word_len: 9 };
+    let n_models = if thorough { 6000 } else { 300 };
+    for i in 0..n_models {
+        let (mut m, alpha) = gen_model(&mut r, &opts);
+        let with_tags = i % 3 != 0;
+        if with_tags {
+            gen_tag_models(&mut r, &mut m, &alpha, 4);
+        }
+        // weight vectors with trailing and inner zeros
+        for (_, w) in m.char_ngrams.iter_mut() {
+            if r.chance(1, 2) {
+                let n = w.len();
+                for x in w.iter_mut().skip(r.below(n)) {
+                    *x = 0;
+                }
+            }
+            if r.chance(1, 3) && !w.is_empty() {
+                let k = r.below(w.len());
+                w[k] = 0;
+            }
+        }
+        let mt = m.to_text();
+        let pt = if with_tags || r.chance(1, 2) { "1" } else { "0" };
+        let st = if pt == "1" && r.chance(1, 2) { "1" } else { "0" };
+        let trail: Vec<u8> = (0..r.below(6)).map(|_| r.below(256) as u8).collect();
+        let specs = format!("{mt}^{pt}{st}!{mt}^{pt}{st}s{}", if trail.is_empty() { "-".to_string() } else { hex(&trail) });
+        for _ in 0..3 {
+            let text = if with_tags { gen_text_tags(&mut r, &m, &alpha, 16) } else { gen_text(&mut r, &m, &alpha, 24) };
+            let fill = if pt == "1" { ",fill" } else { "" };
+            writeln!(out, "H {CFG} {specs} Fraw:{h},pred:0{fill},obs,Fraw:{h},pred:1{fill},obs c14", h = hexs(&text)).unwrap();
+        }
+        // the outer record of the real bytes
+        if let Ok(p) = build_pred(&format!("{mt}^{pt}0")).1 {
+            if let Ok(mut bytes) = p.serialize_to_vec() {
+                bytes.extend_from_slice(&trail);
+                let ntags = if pt == "1" { m.tag_models.iter().map(|t| t.tags.len()).max().unwrap_or(0) } else { 0 };
+                let tp = if pt == "1" {
+                    let mut toks: Vec<&String> = m.tag_models.iter().map(|t| &t.token).collect();
+                    toks.sort();
+                    toks.dedup();
+                    toks.len().to_string()
+                } else {
+                    "-".to_string()
+                };
+                writeln!(out, "E {} {} {} {} {} c14", hex(&bytes), m.bias, ntags, tp, trail.len()).unwrap();
+            }
+        }
+    }
+}
